@@ -187,7 +187,7 @@ def _every_path_pushes(prog, rep):
     r2.check(not outside, "no-extra-push", "no line is pushed outside the loop over the arrangement", "",
              "the slow path also modifies the output vector outside the reassembly loop: %s" % outside)
     lemmas.load_all()
-    for l in ("C06.R2", "C06.R3", "DISPATCH"):
+    for l in ("C06.R2", "C06.R3", "DISPATCH", "C04.WRAPPATH"):
         st = lemmas.status(prog, l)
         if st in ("ok",):
             rep.ok("C09.R2", "crate", "arrangements have at least one line (%s)" % l, "lemma ok", nontrivial=False)
